@@ -487,7 +487,8 @@ fn test_toks(t: &J) -> Vec<Tok> {
 
 fn operand(e: &J, st: &Style, min: u8) -> Vec<Tok> {
     let t = et(e, st);
-    let u = if prec(e) < min { wrap(t) } else { t };
+    let bare_root = e["t"] == "path" && e["abs"] == true && e["steps"].as_array().map(|a| a.is_empty()).unwrap_or(false);
+    let u = if prec(e) < min || (bare_root && min > 1) { wrap(t) } else { t };
     if st.parens {
         wrap(u)
     } else {
